@@ -198,7 +198,7 @@ func Run(c *core.Ctx) int {
 		}
 		jobs = append(jobs, job{&core.Program{Name: fmt.Sprintf("c16/minify-profile-%d", i), Files: MinifyProgram(c.Rand(fmt.Sprint("mp", i)), big)}, "profile"})
 	}
-	ng := c.N(28, 800)
+	ng := c.N(28, 400)
 	for i := 0; i < ng; i++ {
 		r := c.Rand(fmt.Sprint("gen", i))
 		p := progen.Generate(r, progen.Options{Cases: 8 + r.Intn(8), StmtsPer: 6 + r.Intn(8), BoxStruct: true})
